@@ -132,6 +132,13 @@ def _clip(tr, a, kw):
     return f"(Jnp.clip {x} {lo} {hi})", S
 
 
+def _tlogpdf(tr, a, kw):
+    (x, t), = a
+    if set(kw) != {"df"}:
+        raise Untranslatable("jstats.t.logpdf: expected (x, df=...)")
+    return f"(Stats.tLogpdf {x} {kw['df'][0]})", S
+
+
 def _flip(tr, a, kw):
     (x, t), = a
     if t == V:
@@ -196,6 +203,13 @@ LIB = {
     "jnp.clip": _clip,
     "len": _len,
     "jnp.flip": _flip,
+    "jstats.norm.logpdf": _unary_S("Stats.normLogpdf"),
+    "jstats.uniform.logpdf": _unary_S("Stats.uniformLogpdf"),
+    "jstats.cauchy.logpdf": _unary_S("Stats.cauchyLogpdf"),
+    "jstats.laplace.logpdf": _unary_S("Stats.laplaceLogpdf"),
+    "jstats.expon.logpdf": _unary_S("Stats.exponLogpdf"),
+    "jstats.logistic.logpdf": _unary_S("Stats.logisticLogpdf"),
+    "jstats.t.logpdf": _tlogpdf,
     "jnp.abs": _unary_S("Jnp.abs"),
     "jnp.sign": _unary_S("Jnp.sign"),
     "jnp.tanh": _unary_S("Transc.tanh"),
